@@ -190,8 +190,11 @@ func (e *EncryptedISO) ReadAt(b []byte, off int64) (int, error) {
 
 	data := buf[:read]
 	if tail := sizeBytes(len(data)) % sectorSize; tail != 0 && e.isEncrypted((alignedStart + sizeBytes(len(data))).floorSectors()) {
-		// underlying file ended inside a sector of encrypted region: it can't be decrypted and must not be served as is
-		data = data[:sizeBytes(len(data))-tail]
+		// underlying read ended inside a sector of encrypted region: it can't be decrypted and must not be served as is,
+		// unless image itself ends there (then it's a part of announced size and served as stored)
+		if st, err := e.privateFile.Stat(); err != nil || alignedStart+sizeBytes(len(data)) < sizeBytes(st.Size()) {
+			data = data[:sizeBytes(len(data))-tail]
+		}
 	}
 
 	e.clearRegionsData(alignedStart, data)
